@@ -46,6 +46,8 @@ def cusum(ctx):
     spec_l = S("max(0, lb - A_delta - (x - A_target) / A_sd_hat)", env)
     for attr, spec, nm in (("_upper_bound", spec_h, "s_h"), ("_lower_bound", spec_l, "s_l")):
         ap = appends(tr, attr)
+        if not ctx.anchor("CUSUM.update", "the statistic is kept in the list %s" % attr, bool(ap) or bool(tr.stores(attr)), "no write to self.%s in update()" % attr):
+            continue
         ctx.ob("ROLE", "CUSUM.update", "%s appended once per update (target known)" % attr, len(ap) == 1, "found %d appends" % len(ap))
         for e in ap:
             v = e.value.single_atom()[1][0]
@@ -75,6 +77,9 @@ def cusum(ctx):
                         got.add(_root_attr(ra[1]))
                     else:
                         okform = False
+            if not ctx.anchor("CUSUM.update", "the alarm test compares list elements at the current index with the threshold (direction=%r)" % (d,), bool(got) or not okform,
+                              "; ".join(q.short(g, 80) for g in guards(e))[:300], e):
+                continue
             ctx.ob("TAB-direction", "CUSUM.update", "direction=%r tests %s" % (d, "/".join(want)), okform and got == set(want),
                    "the alarm for direction %r must test exactly %s at index samples_since_reset against threshold with '>' (found %s)" % (d, want, sorted(map(str, got))), e)
             ctx.ob("GRD", "CUSUM.update", "direction=%r alarm after burn-in" % (d,), q.has_guard(e, S("s > A_burn_in", {"s": ssr})), "", e)
